@@ -21,6 +21,7 @@ outcome values (binary, continuous, counts), every standardization target and st
 No positivity or non-degeneracy hypothesis is needed: numerators and denominators agree separately.
 -/
 import ZepidVerif.Lemmas.Replicate
+import ZepidVerif.Lemmas.SurvRows
 import Mathlib.Algebra.Order.Field.Rat
 import Mathlib.Tactic.NormNum
 set_option linter.unusedSectionVars false
@@ -212,6 +213,32 @@ theorem survival_replicate (P : List (Person F × Nat)) (t : Nat) :
       (x.2 : F) * (match x.1.riskAt t with | some _ => ((1 : Nat) : F) | none => ((0 : Nat) : F))
     cases x.1.riskAt t <;> simp
 
+/-- **SurvivalGFormula, weights on the person-period rows**: the weights column of the long data set is a per-row
+    column, so an individual's weight may change during follow-up.  Whenever it never rises (`nonIncreasing`: every
+    physical copy of the individual is followed without gaps from his first row), zEpid's weighted mean with each row
+    taken at its own weight equals the unweighted mean over the replicated data, in which copy `j` of the individual
+    consists of the rows repeated more than `j` times — at every time, for all hazards and weights.  (A weight that
+    rises has no replicated counterpart: the extra copies would enter late and restart their cumulative product.) -/
+theorem survival_replicate_rows (P : List (List (Nat × F × Nat))) (hP : ∀ p ∈ P, nonIncreasing p = true) (t : Nat) :
+    survMarginalRows P t = survMarginal (replicatedRows P) t := by
+  unfold survMarginalRows survMarginal replicatedRows
+  rw [sumBy_flatMap, sumBy_flatMap]
+  congr 1
+  · apply sumBy_congr; intro p hp
+    rw [sumBy_map, ← copies_sum (fun r => r) t p _ (maxW p) (hP p hp) (Nat.le_refl _)]
+    apply sumBy_congr; intro j _
+    rw [Person.riskAt_eq]
+    show optVal _ (riskFrom _ (copyRows j p) t) = _
+    simp only [Nat.cast_one, Nat.cast_zero]
+    cases riskFrom (1 : F) (copyRows j p) t <;> simp [optVal]
+  · apply sumBy_congr; intro p hp
+    rw [sumBy_map, ← copies_sum (fun _ => ((1 : Nat) : F)) t p _ (maxW p) (hP p hp) (Nat.le_refl _)]
+    apply sumBy_congr; intro j _
+    rw [Person.riskAt_eq]
+    show optVal _ (riskFrom _ (copyRows j p) t) = _
+    simp only [Nat.cast_one, Nat.cast_zero]
+    cases riskFrom (1 : F) (copyRows j p) t <;> simp [optVal]
+
 /-! ### Non-vacuity: a concrete weighted data set, its replication, and fitted values that solve both -/
 
 /-- 2 strata × 2 arms, integer weights 1..3, one missing outcome -/
@@ -251,5 +278,18 @@ example : survMarginal (weightedP exP) 1 = 5/12 ∧ survMarginal (replicatedP ex
   refine ⟨?_, ?_, ?_⟩ <;>
     norm_num [survMarginal, weightedP, replicatedP, exP, Person.setW, Person.riskAt, cumRisk, sumBy,
       List.replicate, List.find?]
+
+/-- two individuals with row-level weights: 3, 3, 1 (the record stands for three people, later for one) and 2 -/
+def exR : List (List (Nat × ℚ × Nat)) := [[(1, 1/2, 3), (2, 1/2, 3), (3, 1/3, 1)], [(1, 1/4, 2), (2, 1/2, 2)]]
+example : (∀ p ∈ exR, nonIncreasing p = true) ∧ (replicatedRows exR).length = 5 ∧
+    survMarginalRows exR 2 = 7/10 ∧ survMarginal (replicatedRows exR) 2 = 7/10 ∧
+    survMarginalRows exR 3 = 5/6 ∧ survMarginal (replicatedRows exR) 3 = 5/6 ∧
+    -- not trivial: when the first individual's weight drops to 1 already at time 2 the answer there is 2/3, while
+    -- taking every row at the individual's FIRST weight (3) would still give 7/10
+    survMarginalRows [[(1, 1/2, 3), (2, 1/2, 1)], [(1, 1/4, 2), (2, 1/2, 2)]] 2 = 2/3 ∧
+    survMarginalRows [[(1, 1/2, 3), (2, 1/2, 3)], [(1, 1/4, 2), (2, 1/2, 2)]] 2 = 7/10 := by
+  refine ⟨by decide, by decide, ?_, ?_, ?_, ?_, ?_, ?_⟩ <;>
+    simp (decide := true) [survMarginalRows, survMarginal, replicatedRows, exR, rowAcc, copyRows, maxW,
+      Person.riskAt, cumRisk, sumBy, List.range, List.range.loop, List.find?] <;> norm_num
 
 end ZV.P09
